@@ -262,11 +262,11 @@ func gen(t *rapid.T) Case {
 	}
 	// one case in four may contain nil filters and filters on unknown columns
 	allowOdd := rapid.IntRange(0, 3).Draw(t, "odd") == 0
-	kinds := []string{"insert", "insert", "insert", "insert", "read", "read", "read", "update", "update", "delete", "delete", "createif", "reopen"}
+	kinds := []string{"insert", "insert", "insert", "insert", "insert", "insert", "read", "read", "read", "read", "read", "read",
+		"update", "update", "update", "update", "delete", "delete", "delete", "createif", "reopen", "create"}
 	if c.Key != "" {
-		kinds = append(kinds, "readone", "deleteone", "updateone", "updateone")
+		kinds = append(kinds, "readone", "readone", "deleteone", "deleteone", "updateone", "updateone", "updateone")
 	}
-	kinds = append(kinds, "create")
 	n := rapid.IntRange(1, 16).Draw(t, "nops")
 	for i := 0; i < n; i++ {
 		op := Op{Begin: rapid.Bool().Draw(t, "begin")}
@@ -512,6 +512,58 @@ func fromAny(items []any) ([]RecData, error) {
 
 var runDir string
 
+// shared is the store re-used by all cases of this process. Opening and closing
+// a modernc SQLite connection costs far more (mmap/munmap) than a whole history,
+// so by default a case starts from the long-lived handle — the way the server
+// uses these handles — after resetting everything a history can change: error
+// state, sort order, primary-key marks, and the table itself (dropped).
+// C30_FRESH=1 gives every case its own database file instead.
+var shared *store
+
+func acquire(key string) (*store, func(), error) {
+	if os.Getenv("C30_FRESH") != "" {
+		dir, err := os.MkdirTemp(runDir, "c30-")
+		if err != nil {
+			return nil, nil, err
+		}
+		st := &store{path: filepath.Join(dir, "store.db"), key: key}
+		if err := st.open(); err != nil {
+			os.RemoveAll(dir)
+			return nil, nil, err
+		}
+		return st, func() {
+			if st.h != nil {
+				st.h.Close()
+			}
+			os.RemoveAll(dir)
+		}, nil
+	}
+	if shared == nil {
+		dir, err := os.MkdirTemp(runDir, "c30-")
+		if err != nil {
+			return nil, nil, err
+		}
+		shared = &store{path: filepath.Join(dir, "store.db")}
+	}
+	shared.key = key
+	if shared.h != nil {
+		shared.h.Begin().Sort().SetPrimaryKey(key) // "" clears every mark
+		if _, err := shared.h.Database.Exec(`DROP TABLE IF EXISTS "c30_recs"`); err != nil {
+			shared.h.Close()
+			shared.h = nil
+		}
+	}
+	if shared.h == nil {
+		for _, suffix := range []string{"", "-wal", "-shm"} {
+			os.Remove(shared.path + suffix)
+		}
+		if err := shared.open(); err != nil {
+			return nil, nil, err
+		}
+	}
+	return shared, func() {}, nil
+}
+
 type store struct {
 	h    *resources.ResHandle
 	path string
@@ -525,6 +577,13 @@ func (s *store) open() error {
 	}
 	if s.key != "" {
 		h.SetPrimaryKey(s.key)
+	}
+	if os.Getenv("C30_SYNC") == "" {
+		// Durability against power loss is not part of the property; without
+		// this every statement costs an fsync of the WAL (~5 ms here). The
+		// pragma is per connection; the handle is used sequentially, so
+		// database/sql keeps re-using the one connection it has opened.
+		h.Database.Exec("PRAGMA synchronous=OFF;")
 	}
 	s.h = h
 	return nil
@@ -655,26 +714,15 @@ func oracle(c Case) (out vkit.Outcome) {
 		return out
 	}
 
-	dir, err := os.MkdirTemp(runDir, "c30-")
-	if err != nil {
-		out.Inconclusive = "mkdir: " + err.Error()
-		return out
-	}
-	defer os.RemoveAll(dir)
-
 	m := &model{key: c.Key}
 	if m.key == "" {
 		m.key = "name"
 	}
-	st := &store{path: filepath.Join(dir, "store.db"), key: c.Key}
-	if err := st.open(); err != nil {
+	st, release, err := acquire(c.Key)
+	if err != nil {
 		return fail("open error", err.Error(), "a handle")
 	}
-	defer func() {
-		if st.h != nil {
-			st.h.Close()
-		}
-	}()
+	defer release()
 	if c.Create {
 		err = st.h.Create()
 	} else {
@@ -743,7 +791,7 @@ func oracle(c Case) (out vkit.Outcome) {
 			}
 			if err != nil {
 				if nAbsent > 0 && absentFirst {
-					return fail("nil filter before a real filter: error op=read", where+" filters="+ss+": "+err.Error(), fmt.Sprintf("%d record(s): %s", len(want), show(want)))
+					return fail("nil filter before a real filter op=read", where+" filters="+ss+": "+err.Error(), fmt.Sprintf("%d record(s): %s", len(want), show(want)))
 				}
 				return fail("read error filters="+ss, where+": "+err.Error(), fmt.Sprintf("%d record(s): %s", len(want), show(want)))
 			}
@@ -773,6 +821,9 @@ func oracle(c Case) (out vkit.Outcome) {
 			args, mf, shapes, nAbsent, nBad, absentFirst := st.build(m, op.Filters)
 			ss := shapeSig(shapes)
 			auditSig = "update state filters=" + ss
+			if nAbsent > 0 && absentFirst {
+				auditSig = "nil filter before a real filter op=update"
+			}
 			for _, s := range shapes {
 				labels["filter "+s] = true
 			}
@@ -828,7 +879,7 @@ func oracle(c Case) (out vkit.Outcome) {
 			}
 			if err != nil {
 				if nAbsent > 0 && absentFirst {
-					return fail("nil filter before a real filter: error op=update", where+" filters="+ss+": "+err.Error(), fmt.Sprintf("%d row(s) replaced", len(hit)))
+					return fail("nil filter before a real filter op=update", where+" filters="+ss+": "+err.Error(), fmt.Sprintf("%d row(s) replaced", len(hit)))
 				}
 				return fail("update error filters="+ss, where+": "+err.Error(), fmt.Sprintf("%d row(s) replaced", len(hit)))
 			}
@@ -841,6 +892,9 @@ func oracle(c Case) (out vkit.Outcome) {
 			args, mf, shapes, nAbsent, nBad, absentFirst := st.build(m, op.Filters)
 			ss := shapeSig(shapes)
 			auditSig = "delete state filters=" + ss
+			if nAbsent > 0 && absentFirst {
+				auditSig = "nil filter before a real filter op=delete"
+			}
 			for _, s := range shapes {
 				labels["filter "+s] = true
 			}
@@ -872,7 +926,7 @@ func oracle(c Case) (out vkit.Outcome) {
 			}
 			if err != nil {
 				if nAbsent > 0 && absentFirst {
-					return fail("nil filter before a real filter: error op=delete", where+" filters="+ss+": "+err.Error(), fmt.Sprintf("%d row(s) deleted", want))
+					return fail("nil filter before a real filter op=delete", where+" filters="+ss+": "+err.Error(), fmt.Sprintf("%d row(s) deleted", want))
 				}
 				return fail("delete error filters="+ss, where+": "+err.Error(), fmt.Sprintf("%d row(s) deleted", want))
 			}
@@ -1066,7 +1120,7 @@ func TestC30(t *testing.T) {
 		Gen:      gen,
 		Oracle:   oracle,
 		Fixed:    fixed,
-		Quick:    400,
-		Thorough: 5000,
+		Quick:    500,
+		Thorough: 4000,
 	})
 }
